@@ -32,7 +32,7 @@ theorem fieldInfo_complete (types : List Elem) (hnr : NoTopLevelRef types) (hsz 
     | ref n ty o a => exact absurd (findType_mem types _ _ hf) (hnr n ty o a)
     | _ => exact ⟨_, rfl⟩
 
-theorem vConstantField_complete (hfp : FpAgree) (types : List Elem) (hpl : CharEnumsPlain types) (p : Path) (f : FieldDef)
+theorem vConstantField_complete (hfp : FpAgree) (types : List Elem) (p : Path) (f : FieldDef)
     (h : constFieldViols types p f = []) : vConstantField types p f = .ok () := by
   unfold vConstantField
   unfold constFieldViols at h
@@ -51,7 +51,7 @@ theorem vConstantField_complete (hfp : FpAgree) (types : List Elem) (hpl : CharE
         obtain ⟨n, enc, v⟩ := x
         simp only [hr] at h
         simp only [bind_ok, Except.ok.injEq, exists_eq_left', need_ok]
-        rw [valueRefFits_eq hfp types hpl r n enc f.type v hr hp]
+        rw [valueRefFits_eq hfp types r n enc f.type v hr hp]
         cases hrep : representable f.type (enumValueLiteral ((underlyingPrim types enc).getD enc) v.value) with
         | true => rfl
         | false => simp [hrep] at h
@@ -79,7 +79,7 @@ theorem vConstantField_complete (hfp : FpAgree) (types : List Elem) (hpl : CharE
             · simp [heq] at h
       | _ => rfl
 
-theorem vFields_complete (hfp : FpAgree) (types : List Elem) (hpl : CharEnumsPlain types) (hnr : NoTopLevelRef types)
+theorem vFields_complete (hfp : FpAgree) (types : List Elem) (hnr : NoTopLevelRef types)
     (hsz : SizesAgree types) (lp : Path) :
     ∀ (fields : List FieldDef) (cur : Nat),
       (∀ f ∈ fields, symbolicName f.name = true ∧ fieldViols types lp f = []) →
@@ -108,7 +108,7 @@ theorem vFields_complete (hfp : FpAgree) (types : List Elem) (hpl : CharEnumsPla
       obtain ⟨e, he⟩ := ih cur hrest hoff
       refine ⟨e, hname, _, hinfo, ?_⟩
       simp only [hc, ↓reduceIte, bind_ok]
-      exact ⟨(), vConstantField_complete hfp types hpl _ f hfv, he⟩
+      exact ⟨(), vConstantField_complete hfp types _ f hfv, he⟩
     · simp only [fieldMinima, hc, Bool.false_eq_true, ↓reduceIte, g3, List.filterMap_cons] at hoff
       have hov : fieldOffsetViol lp (f, cur) = none := by
         cases hx : fieldOffsetViol lp (f, cur) with
@@ -129,7 +129,7 @@ theorem vFields_complete (hfp : FpAgree) (types : List Elem) (hpl : CharEnumsPla
         · simp [hlt] at hov
         · simp [hlt, he]
 
-theorem vDatas_complete (types : List Elem) (lp : Path) :
+theorem vDatas_complete (types : List Elem) (hsz : SizesAgree types) (lp : Path) :
     ∀ (datas : List DataDef),
       (∀ d ∈ datas, symbolicName d.name = true ∧ headerViols types (lp ++ [d.name]) d.type ["length"] true = []) →
       vDatas types lp datas = .ok () := by
@@ -138,7 +138,7 @@ theorem vDatas_complete (types : List Elem) (lp : Path) :
   | nil => intro _; simp [vDatas]
   | cons d rest ih =>
     intro h
-    simp only [vDatas, bind_ok, vName_ok, vDataHeader_ok, exists_const]
+    simp only [vDatas, bind_ok, vName_ok, vDataHeader_ok types hsz, exists_const]
     exact ⟨(h d (by simp)).1, (h d (by simp)).2, ih (fun d' h' => h d' (by simp [h']))⟩
 
 theorem blockLength_complete (types : List Elem) (lp : Path) (bl : Option Nat) (fields : List FieldDef) (off : Nat)
@@ -171,9 +171,9 @@ theorem levelGood_parts (types : List Elem) (l : LevelView) (h : LevelGood types
   exact ⟨fun f hf => ⟨h1 f hf, a f hf⟩, b, c, fun g hg => ⟨h2 g hg, d g hg⟩, fun x hx => ⟨h3 x hx, e x hx⟩⟩
 
 section LevelsComplete
-variable (hfp : FpAgree) (types : List Elem) (hpl : CharEnumsPlain types) (hnr : NoTopLevelRef types)
+variable (hfp : FpAgree) (types : List Elem) (hnr : NoTopLevelRef types)
   (hsz : SizesAgree types)
-include hfp hpl hnr hsz
+include hfp hnr hsz
 
 theorem level_complete (lp : Path) (bl : Option Nat) (fields : List FieldDef) (groups : List GroupDef)
     (datas : List DataDef) (hl : LevelGood types ⟨lp, bl, fields, groups, datas⟩) :
@@ -182,9 +182,9 @@ theorem level_complete (lp : Path) (bl : Option Nat) (fields : List FieldDef) (g
        | .error _ => (fail .blockLengthTooSmall lp : R Unit)
        | .ok _ => .ok ()) = .ok () ∧ vDatas types lp datas = .ok () := by
   obtain ⟨a, b, c, _, e⟩ := levelGood_parts types _ hl
-  obtain ⟨off, hoff⟩ := vFields_complete hfp types hpl hnr hsz lp fields 0 a b
-  have hend := (vFields_ok hfp types hpl hsz lp fields 0 off hoff).2.2
-  exact ⟨off, hoff, blockLength_complete types lp bl fields off hend c, vDatas_complete types lp datas e⟩
+  obtain ⟨off, hoff⟩ := vFields_complete hfp types hnr hsz lp fields 0 a b
+  have hend := (vFields_ok hfp types hsz lp fields 0 off hoff).2.2
+  exact ⟨off, hoff, blockLength_complete types lp bl fields off hend c, vDatas_complete types hsz lp datas e⟩
 
 mutual
   theorem vGroup_complete : ∀ (g : GroupDef) (lp : Path),
@@ -193,7 +193,7 @@ mutual
       (∀ l ∈ groupLevels lp g, LevelGood types l) → vGroup types lp g = .ok ()
     | .mk n id dim bl fields groups datas a, lp, hn, hh, hl => by
       have hself := hl ⟨lp ++ [n], bl, fields, groups, datas⟩ (by simp [groupLevels])
-      obtain ⟨off, h1, h2, h3⟩ := level_complete hfp types hpl hnr hsz _ bl fields groups datas hself
+      obtain ⟨off, h1, h2, h3⟩ := level_complete hfp types hnr hsz _ bl fields groups datas hself
       obtain ⟨_, _, _, hgs, _⟩ := levelGood_parts types _ hself
       have hsub := vGroups_complete groups (lp ++ [n]) hgs (fun l hm => hl l (by simp [groupLevels, hm]))
       simp only [vGroup, bind_ok, vName_ok, vLevelHeader_ok, exists_const]
@@ -214,23 +214,23 @@ end
 theorem vMessage_complete (m : MessageDef) (hn : symbolicName m.name = true)
     (hl : ∀ l ∈ messageLevels m, LevelGood types l) : vMessage types m = .ok () := by
   have hself := hl ⟨msgPath m, m.blockLength, m.fields, m.groups, m.datas⟩ (by simp [messageLevels])
-  obtain ⟨off, h1, h2, h3⟩ := level_complete hfp types hpl hnr hsz _ m.blockLength m.fields m.groups m.datas hself
+  obtain ⟨off, h1, h2, h3⟩ := level_complete hfp types hnr hsz _ m.blockLength m.fields m.groups m.datas hself
   obtain ⟨_, _, _, hgs, _⟩ := levelGood_parts types _ hself
-  have hsub := vGroups_complete hfp types hpl hnr hsz m.groups (msgPath m) hgs
+  have hsub := vGroups_complete hfp types hnr hsz m.groups (msgPath m) hgs
     (fun l hm => hl l (by simp [messageLevels, hm]))
   simp only [vMessage, bind_ok, vName_ok, exists_const]
   exact ⟨hn, off, h1, (), h2, (), hsub, h3⟩
 
 end LevelsComplete
 
-theorem messagesPhase_complete (hfp : FpAgree) (s : SchemaDef) (hpl : CharEnumsPlain s.types)
+theorem messagesPhase_complete (hfp : FpAgree) (s : SchemaDef)
     (hnr : NoTopLevelRef s.types) (hsz : SizesAgree s.types)
     (hh : headerViols s.types ["schema"] s.headerType ["schemaId", "templateId", "version", "blockLength"] false = [])
     (hm : ∀ m ∈ s.messages, symbolicName m.name = true) (hl : ∀ l ∈ allLevels s, LevelGood s.types l) :
     messagesPhase s = .ok () := by
   simp only [messagesPhase, bind_ok, vLevelHeader_ok, exists_const, allOk_ok]
   refine ⟨hh, fun m hmm => ?_⟩
-  exact vMessage_complete hfp s.types hpl hnr hsz m (hm m hmm)
+  exact vMessage_complete hfp s.types hnr hsz m (hm m hmm)
     (fun l hlm => hl l (by unfold allLevels; exact List.mem_flatMap.mpr ⟨m, hmm, hlm⟩))
 
 
@@ -674,9 +674,9 @@ theorem entityNames_data (s : SchemaDef) (l : LevelView) (hl : l ∈ allLevels s
 
 /-- **acceptance**: a schema (as produced by the parser: `<ref>` only inside composites) that breaks
     none of the rules sbeppc has a diagnostic for is accepted by the model -/
-theorem no_violation_check_ok (hfp : FpAgree) (s : SchemaDef) (hpl : CharEnumsPlain s.types)
-    (hnr : NoTopLevelRef s.types) (h : enforcedViolations s = []) : check s = .ok () := by
-  unfold enforcedViolations at h
+theorem no_violation_check_ok (hfp : FpAgree) (s : SchemaDef)
+    (hnr : NoTopLevelRef s.types) (h : violations s = []) : check s = .ok () := by
+  unfold violations at h
   simp only [List.append_eq_nil_iff, List.flatMap_eq_nil_iff] at h
   obtain ⟨⟨⟨⟨⟨⟨va, vd⟩, vn⟩, ve⟩, vc⟩, vh⟩, vl⟩ := h
   obtain ⟨hns, hnames⟩ := nameViols_parts s vn
@@ -697,8 +697,8 @@ theorem no_violation_check_ok (hfp : FpAgree) (s : SchemaDef) (hpl : CharEnumsPl
     | composite nm o elems a => exact ⟨trivial, trivial⟩
   have hgood : ∀ q x, (q, x) ∈ allElems s → ElemGood s.types q x := fun q x hm =>
     ⟨(hnames _ _ (entityNames_elem s q x hm)).1, (hsubE q x hm).1, ve (q, x) hm⟩
-  have ht := typesPhase_complete hfp s hpl hnd hgood vc
-  have hsz : SizesAgree s.types := (typesPhase_good hfp s hpl ht).1
+  have ht := typesPhase_complete hfp s hnd hgood vc
+  have hsz : SizesAgree s.types := sizesAgree_of_phase hfp s ht
   have hmsgN : ∀ m ∈ s.messages, symbolicName m.name = true ∧ isKeyword m.name = false :=
     fun m hm => hnames _ _ (entityNames_msg s m hm)
   have hlevN : ∀ l ∈ allLevels s,
@@ -711,7 +711,7 @@ theorem no_violation_check_ok (hfp : FpAgree) (s : SchemaDef) (hpl : CharEnumsPl
   have hlev : ∀ l ∈ allLevels s, LevelGood s.types l := fun l hl =>
     ⟨fun f hf => ((hlevN l hl).1 f hf).1, fun g hg => ((hlevN l hl).2.1 g hg).1,
      fun d hd => ((hlevN l hl).2.2 d hd).1, vl l hl⟩
-  have hm := messagesPhase_complete hfp s hpl hnr hsz vh (fun m hmm => (hmsgN m hmm).1) hlev
+  have hm := messagesPhase_complete hfp s hnr hsz vh (fun m hmm => (hmsgN m hmm).1) hlev
   have hc := cppPhase_complete s hns
     (fun q x hx => ⟨(hnames _ _ (entityNames_elem s q x hx)).2, (hsubE q x hx).2⟩)
     (fun m hmm => (hmsgN m hmm).2)
@@ -720,8 +720,8 @@ theorem no_violation_check_ok (hfp : FpAgree) (s : SchemaDef) (hpl : CharEnumsPl
   exact (check_phases s).mpr ⟨hp, ht, hm, hc⟩
 
 /-- **check_ok_iff_rules** (enforced rules): accepted ⇔ no enforced rule is broken -/
-theorem check_ok_iff_enforced (hfp : FpAgree) (s : SchemaDef) (hpl : CharEnumsPlain s.types)
-    (hnr : NoTopLevelRef s.types) : check s = .ok () ↔ enforcedViolations s = [] :=
-  ⟨check_ok_no_violation hfp s hpl, no_violation_check_ok hfp s hpl hnr⟩
+theorem check_ok_iff_enforced (hfp : FpAgree) (s : SchemaDef)
+    (hnr : NoTopLevelRef s.types) : check s = .ok () ↔ violations s = [] :=
+  ⟨check_ok_no_violation hfp s, no_violation_check_ok hfp s hnr⟩
 
 end Sbepp.Schema.Rules
